@@ -510,3 +510,5 @@ LEVEL_TEXT = ("Machine-checked Lean 4 theorems about an executable model of read
               "structured differential comparison of the compiled model with the real function, and the property's oracle on the real function.")
 LEVEL_NOTE = ("Python's `re` backtracking order is modelled by hand (trusted, exhaustively compared on short strings). Known finding R19 "
               "(~Parameter, colon inside the unit, delimiter rejected by the time look-around) is carved out by an explicit hypothesis.")
+
+RULE = RULE + ("; ALSO (fifth session): document stream values at and beyond the 64-bit integer range (2^63-1, 2^63, -2^63-1, 23 digits)")
